@@ -80,6 +80,12 @@ pub fn encode_h<'v>(v: Value<'v>, path: &mut Vec<usize>, heap: Option<starlark::
             }
         }
     }
+    if let Some(st) = starlark::values::structs::StructRef::from_value(v) {
+        // immutable, so no cycle can pass through it without passing through a list/dict
+        let ks: Vec<J> = st.iter().map(|(k, _)| json!(k.as_str().chars().map(|c| c as u32).collect::<Vec<_>>())).collect();
+        let vs: Vec<J> = st.iter().map(|(_, x)| encode_h(x, path, heap)).collect();
+        return json!({"t": "struct", "k": ks, "v": vs});
+    }
     if ty == "range" {
         // repr: range(a, b) or range(a, b, c) or range(b)
         let r = v.to_repr();
@@ -156,6 +162,22 @@ pub fn classify(msg: &str) -> &'static str {
         ("divide by zero", "div0"),
         ("modulo by zero", "div0"),
         ("Modulo by zero", "div0"),
+        ("Not enough parameters in format string", "index"),
+        ("for format string", "format"),
+        ("Incomplete format", "format"),
+        ("Unsupported format character", "format"),
+        ("Cannot mix manual field", "format"),
+        ("in format string", "format"),
+        ("inside replacement field", "format"),
+        ("Substring", "value"),
+        ("Empty separator", "value"),
+        ("Negative left shift", "value"),
+        ("Negative right shift", "value"),
+        ("as an integer", "value"),
+        ("chr() parameter", "value"),
+        ("is not a single character string", "value"),
+        ("Cannot .popitem()", "value"),
+        ("Operation `.", "attr"),
         ("out of bound", "index"),
         ("Index out of bound", "index"),
         ("Element", "value"),
